@@ -114,6 +114,7 @@ LawSetPrint   == c.kind = "set" => LET a == After(c.f, c.fld, c.b)
                                    IN /\ a = c.b /\ a[c.fld] # Normalize(c.f)[c.fld] /\ PrintId(a) = Render(a)
                                       /\ (c.fld \notin {"ver"} => PrintId(a) # PrintId(c.f))
                                       /\ GrammarLaw(a) /\ ParseLaw(a) /\ ReprintLaw(a)
+LawReparse    == c.kind = "set" => ReparseLaw(c.f, c.fld, c.b)
 (* the int / list spelling of one prediction id is not part of the abstract id: both spellings print alike *)
 LawSpelling   == [][c'.f = c.f]_vars
 
